@@ -26,6 +26,7 @@ type GenOpts struct {
 	StartNs    int64
 	EndNs      int64
 	StepAlign  int64 // place timestamps around multiples of this (bucket edges)
+	NegN       bool  // the n field of the lines is below zero in whole series now and then (C09)
 	Malformed  bool  // some lines are cut after a readable prefix / are not objects (json), have an unterminated quote (logfmt)
 }
 
@@ -135,6 +136,14 @@ func nVal(r *rand.Rand) int {
 	return r.Intn(20)
 }
 
+// nValO: with NegN every value is below zero or zero (so that whole buckets, whole series hold nothing above zero).
+func nValO(r *rand.Rand, o GenOpts) int {
+	if o.NegN {
+		return -nVal(r)
+	}
+	return nVal(r)
+}
+
 func genLine(r *rand.Rand, o GenOpts, j int) string {
 	if o.Malformed && r.Intn(4) == 0 {
 		lv := []string{"err", "info", "dbg"}[r.Intn(3)]
@@ -153,16 +162,16 @@ func genLine(r *rand.Rand, o GenOpts, j int) string {
 	case o.JSONLines:
 		switch r.Intn(10) {
 		case 0:
-			return `{"msg":"plain","n":` + fmt.Sprint(nVal(r)) + `}`
+			return `{"msg":"plain","n":` + fmt.Sprint(nValO(r, o)) + `}`
 		case 1:
-			return `{"msg":` + Q(tokens[r.Intn(len(tokens))]) + `,"lvl2":"` + []string{"err", "info"}[r.Intn(2)] + `","n":` + fmt.Sprint(nVal(r)) + `,"rid":` + numSpellings[r.Intn(len(numSpellings))] + `,"nested":{"a":{"b":"deep` + fmt.Sprint(r.Intn(3)) + `"},"arr":[1,"two",{"k":"v` + fmt.Sprint(r.Intn(3)) + `"}]}}`
+			return `{"msg":` + Q(tokens[r.Intn(len(tokens))]) + `,"lvl2":"` + []string{"err", "info"}[r.Intn(2)] + `","n":` + fmt.Sprint(nValO(r, o)) + `,"rid":` + numSpellings[r.Intn(len(numSpellings))] + `,"nested":{"a":{"b":"deep` + fmt.Sprint(r.Intn(3)) + `"},"arr":[1,"two",{"k":"v` + fmt.Sprint(r.Intn(3)) + `"}]}}`
 		case 2:
 			return `{"msg":"x","flag":true,"ratio":2.5,"nested":{"a":{"b":"deep0"}}}`
 		default:
-			return `{"msg":` + Q(tokens[r.Intn(len(tokens))]+" "+tokens[r.Intn(len(tokens))]) + `,"lvl2":"` + []string{"err", "info", "dbg"}[r.Intn(3)] + `","n":` + fmt.Sprint(nVal(r)) + `,"rid":` + numSpellings[r.Intn(len(numSpellings))] + `,"nested":{"a":{"b":"deep` + fmt.Sprint(r.Intn(3)) + `"},"arr":[1,"two",{"k":"v1"}]},"user id":"u` + fmt.Sprint(r.Intn(3)) + `"}`
+			return `{"msg":` + Q(tokens[r.Intn(len(tokens))]+" "+tokens[r.Intn(len(tokens))]) + `,"lvl2":"` + []string{"err", "info", "dbg"}[r.Intn(3)] + `","n":` + fmt.Sprint(nValO(r, o)) + `,"rid":` + numSpellings[r.Intn(len(numSpellings))] + `,"nested":{"a":{"b":"deep` + fmt.Sprint(r.Intn(3)) + `"},"arr":[1,"two",{"k":"v1"}]},"user id":"u` + fmt.Sprint(r.Intn(3)) + `"}`
 		}
 	case o.Logfmt:
-		return fmt.Sprintf(`lvl2=%s n=%d msg="%s" path=/a/b`, []string{"err", "info", "dbg"}[r.Intn(3)], nVal(r), strings.ReplaceAll(tokens[r.Intn(12)], `"`, ``))
+		return fmt.Sprintf(`lvl2=%s n=%d msg="%s" path=/a/b`, []string{"err", "info", "dbg"}[r.Intn(3)], nValO(r, o), strings.ReplaceAll(tokens[r.Intn(12)], `"`, ``))
 	}
 	n := 1 + r.Intn(4)
 	parts := make([]string, n)
